@@ -192,6 +192,9 @@ CASES = [
     ("m-c18-dropbox-global-patch", "C18", "fire", "xdis/dropbox/decrypt25.py", "    um.dispatch = dict(um.dispatch)\n", "", "write:class:xdis.marsh._FastUnmarshaller.dispatch"),
     ("s-c18-dropbox-copy-method", "C18", "silent", "xdis/dropbox/decrypt25.py", "    um.dispatch = dict(um.dispatch)\n", "    um.dispatch = um.dispatch.copy()\n", ""),
     ("m-c20-std-dup-lines", "C20", "fire", "xdis/std.py", "                    # dis reports a line only where it changes\n                    dup_lines=False,\n", "", "dup_lines=False"),
+    ("m-c13-version-not-passed", "C13", "fire", "xdis/load.py", "        fp.write(xdis.marsh.dumps(code_obj, python_version=version))", "        fp.write(xdis.marsh.dumps(code_obj))", "marshaller-told-target-version"),
+    ("m-c13-py2-str-as-unicode", "C13", "fire", "xdis/marsh.py", "            if type(x) is str:\n                self.dump_string(x.encode(\"utf-8\"))\n                return\n", "", "py2-target:str-writer"),
+    ("m-c13-py2-32bit-fields", "C13", "fire", "xdis/marsh.py", "            if self.python_version and self.python_version < (2, 3)\n", "            if self.python_version and self.python_version < (2, 1)\n", "Code2:layout@2.1-2.2"),
     # ---------------- whole-package reformat, one case per property
     ("s-c01-reformat", "C01", "silent", "*REFORMAT*", "", "", ""),
     ("s-c02-reformat", "C02", "silent", "*REFORMAT*", "", "", ""),
